@@ -31,6 +31,18 @@ CLAIMS = {
          "Decides the structural half of 'every alert is justified': missing required call ⇒ constant-0 confidence on every reachable return; every admission in both backends dominated by Confidence >= threshold-field (or a constant >= 0.99 in JSON exact mode) in NaN-safe polarity; the threshold feeds nothing but such comparisons (monotonicity); returned alert slices are the Confidence-descending-sorted ones; exact and full mode guard admission by the same shapes (JSON: only the two stated differences); every score term is one of the enumerated [0,1] shapes and confidence is their mean.",
          "Does not decide numeric equality of confidences across modes nor floating-point corner cases beyond the NaN polarity of the filter.",
          "DESIGN.md §4 C08"),
+ "C06": ("coupled-update analysis (record write ⇒ all index writes + stale deletes in the same batch on every path to the commit), argument provenance through key builders, must-pass-through for stale-delete and dedup guards with an only-these-guards census, bound provenance of every IterOptions, prefix census of the rebuild's range deletes, format analysis of composite keys",
+         "Decides the structural mechanism behind 'lookups reflect exactly the current set': every writer of a signature record writes all three index entries from that very signature and deletes the entries computed from the previously stored record (guarded only by 'field changed'), deletion removes every index entry, batch adds process only the last occurrence of an ID, all iterators are prefix-bounded with a nil-checked upper bound, the rebuild clears exactly the index prefixes and re-derives through the same builders, in-place rewrites touch no index-relevant field, composite keys are unambiguous (two known findings: topo:/fuzzy: keys).",
+         "Does not decide equality with a brute-force oracle over histories; trusts Pebble.",
+         "DESIGN.md §4 C06"),
+ "C11": ("receiver provenance of every iterator / record fetch in alert-producing scans (same *pebble.Snapshot, through closures), forward must-lockset analysis per method with derived guarded-field sets, escape analysis of the JSON getters' results",
+         "Decides the structural conditions for consistent concurrent scans: index walk and record fetch share one snapshot in every alert/candidate producer; every access to a mutex-guarded field and every durable write holds the required lock level on every path; JSON getters hand out copies. This covers every interleaving because it is a property of each method's lock/snapshot discipline, which the race-detector stress of the test suite can only sample.",
+         "Trusts pebble.Snapshot consistency and sync.RWMutex; races inside Pebble and liveness are not decided.",
+         "DESIGN.md §4 C11"),
+ "C18": ("coupled-update analysis of the JSON store's slice and ID→slot map, error-discipline rule over the streaming migration (every decoder error ends in an error return, nothing is decoded after an error), static type agreement of gob encode/decode sites, JSON key agreement between writers and the migration, typestate ordering of the atomic save",
+         "Decides the structural necessary conditions of 'signatures survive migration/export/either backend': slot map updated with every append or rebuilt after replacement; migration propagates every Token/Decode/import error and requires the array and its closing bracket; gob encodes and decodes the same static type; export, JSON store and migration agree on the array key; the save is temp→encode→Sync→Close→Rename.",
+         "Field-for-field round-trip equality through gob/JSON is a runtime property and is not decided.",
+         "DESIGN.md §4 C18"),
 }
 
 PENDING_REASON = "static check for this property is not armed yet in this revision of the machinery (see DESIGN.md §4 for the planned structural clauses); not claimed until its rules run silent on the tree and fire on their mutants"
